@@ -1,10 +1,11 @@
 \* C20 design check: the pipeline (with the repaired unsupported-encoding rule) satisfies C20 on every configuration.
 CONSTANTS
   UnsupportedRule = "pass"
+  ParseRule = "scripting"
   CspRule = "policylist"
   LengthRule = "set"
   EmitCases = FALSE
 INIT Init
 NEXT Next
-INVARIANTS TypeOK PassThroughIsIdentity HtmlGetsExactlyOneScript LengthMatchesBody EncodingHeaderDescribesBody
+INVARIANTS TypeOK PassThroughIsIdentity HtmlGetsExactlyOneScript DocumentOnlyAppendedTo LengthMatchesBody EncodingHeaderDescribesBody
 CHECK_DEADLOCK FALSE
